@@ -55,7 +55,7 @@ class Spy(lk.Model):
         return S
 
 
-FUNCS = {0: (1, lambda x: 2 * x + 1), 1: (2, lambda x, y: x + 2 * y), 2: (1, lambda x: x / 2)}
+FUNCS = {0: (1, lambda x: 2 * x + 1), 1: (2, lambda x, y: x + 2 * y), 2: (1, lambda x: x / 2), 3: (0, lambda: 0.75)}
 
 
 def make_func(fid, argnames):
@@ -118,13 +118,18 @@ def gen_tree(rng, depth, spy_p=0.0, hygienic=False, twins=False, replace=False):
     for _ in range(rng.choice([0, 0, 1, 2])):
         sdef[rng.choice(POOL)] = rq(rng)
     adds = []
-    if rng.random() < 0.35:
-        # define an existing visible parameter in terms of new arguments
-        fid = rng.choice([0, 1, 2])
+    taken = set()
+    for _ in range(rng.choice([0, 0, 0, 1, 1, 2])):
+        # define an existing visible parameter in terms of new arguments (possibly none: a constant)
+        fid = rng.choice([0, 1, 2, 0, 1, 2, 3])
         arity = FUNCS[fid][0]
-        old = rng.choice(POOL)
-        args = rng.sample([p for p in POOL + [6, 7] if p != old], arity)
+        old = rng.choice([p for p in POOL if p not in taken])     # neither an earlier definition's name nor argument
+        taken.add(old)
+        args = rng.sample([p for p in POOL + [6, 7] if p not in taken], arity)
+        taken |= set(args)
         adds.append({"name": old, "fun": fid, "args": [[a, rq(rng)] for a in args]})
+        if arity > 0 and rng.random() < 0.3:
+            adds[-1]["intro"] = True
     node = {"children": children, "sdef": [[k, v] for k, v in sdef.items()], "adds": adds,
             "set_after": rng.random() < 0.5}
     if replace and rng.random() < 0.3:
@@ -179,7 +184,12 @@ def sanitize(node):
     vis = visible_defaults(node)
     if rep is not None:
         node["replaced"] = rep
-    node["adds"] = [a for a in saved if a["name"] in vis]
+    keep = []
+    for a in saved:
+        if a["name"] in vis:
+            keep.append(a)
+            vis = (vis - {a["name"]}) | {x for x, _ in a["args"]}
+    node["adds"] = keep
 
 
 def build(node, counter, registry=None, path=()):
@@ -219,9 +229,14 @@ def build(node, counter, registry=None, path=()):
             S.set_param(pn(k), v)
         for a in node["adds"]:
             argnames = [pn(x) for x, _ in a["args"]]
-            lk.add_param(pn(a["name"]), make_func(a["fun"], argnames),
-                         default={pn(x): d for x, d in a["args"]})
-            if node.get("set_after"):
+            if a.get("intro"):
+                # defaults and argument names found by introspection of the function (default=None)
+                src = "lambda %s: _f(%s)" % (", ".join(f"{pn(x)}={d!r}" for x, d in a["args"]), ", ".join(argnames))
+                lk.add_param(pn(a["name"]), eval(src, {"_f": FUNCS[a["fun"]][1]}))
+            else:
+                lk.add_param(pn(a["name"]), make_func(a["fun"], argnames),
+                             default={pn(x): d for x, d in a["args"]})
+            if node.get("set_after") and a["args"]:
                 # a solver default given AFTER the definition must be honoured by the function
                 x, d = a["args"][0]
                 S.set_param(pn(x), d + 0.75)
@@ -254,7 +269,7 @@ def tree_lit(node):
     for a in node["adds"]:
         adds.append("{| ap_name := %s; ap_fun := %s; ap_args := %s |}"
                     % (cnat(a["name"]), cnat(a["fun"]), dict_lit(a["args"])))
-        if node.get("set_after"):
+        if node.get("set_after") and a["args"]:
             x, d = a["args"][0]
             after.append([x, d + 0.75])
     rep = "None" if "replaced" not in node else "(Some %s)" % dict_lit(node["replaced"])
